@@ -450,15 +450,14 @@ class Deb822Dict(_Deb822Dict_base):
             else:
                 items = list(_dict)    # type: ignore
 
-            try:
-                for k, v in items:
-                    self[k] = v
-            except ValueError:
-                this = len(self.__keys)
-                len_ = len(items[this])
-                raise ValueError(
-                    'dictionary update sequence element #%d has '
-                    'length %d; 2 is required' % (this, len_))
+            for this, item in enumerate(items):
+                try:
+                    k, v = item
+                except ValueError:
+                    raise ValueError(
+                        'dictionary update sequence element #%d has '
+                        'length %d; 2 is required' % (this, len(item)))
+                self[k] = v
 
         if _parsed is not None:
             self.__parsed = _parsed
